@@ -5,6 +5,7 @@ import (
 	"math"
 	"math/rand"
 	"strings"
+	"time"
 
 	"github.com/lindb/lindb/aggregation/function"
 	"github.com/lindb/lindb/pkg/timeutil"
@@ -25,7 +26,10 @@ type sqlGen struct {
 	r        *rand.Rand
 	names    []string // field names / aliases usable in order by
 	absTime  bool     // both time bounds absolute (statement is time independent)
+	future   bool     // an absolute bound lies after the wall clock
 	hasWhere bool
+	// the absolute bounds in epoch milliseconds (valid when absTime)
+	wantStart, wantEnd int64
 }
 
 func (g *sqlGen) pick(xs []string) string { return xs[g.r.Intn(len(xs))] }
@@ -186,31 +190,34 @@ func (g *sqlGen) tagFilter(d int) string {
 	}
 }
 
-func (g *sqlGen) absTimestamp(base int64) string {
-	// 2019-01-01 .. 2023, rendered in one of the layouts ParseTimestamp knows
-	t := base
-	sec := t % 60
-	min := (t / 60) % 60
-	hour := (t / 3600) % 24
-	day := 1 + (t/86400)%28
-	mon := 1 + (t/(86400*28))%12
-	year := 2019 + (t/(86400*28*12))%5
-	switch g.r.Intn(3) {
-	case 0:
-		return fmt.Sprintf("'%04d%02d%02d %02d:%02d:%02d'", year, mon, day, hour, min, sec)
-	case 1:
-		return fmt.Sprintf("'%04d-%02d-%02d %02d:%02d:%02d'", year, mon, day, hour, min, sec)
-	default:
-		return fmt.Sprintf("'%04d/%02d/%02d %02d:%02d:%02d'", year, mon, day, hour, min, sec)
-	}
+// absTimestamp renders the UTC second `sec` in one of the layouts ParseTimestamp knows.
+func (g *sqlGen) absTimestamp(sec int64) string {
+	t := time.Unix(sec, 0).UTC()
+	layout := []string{"20060102 15:04:05", "2006-01-02 15:04:05", "2006/01/02 15:04:05"}[g.r.Intn(3)]
+	return "'" + t.Format(layout) + "'"
 }
 
 func (g *sqlGen) timeRange() string {
 	if g.r.Intn(10) < 6 {
-		a := g.r.Int63n(86400 * 28 * 12 * 4)
-		b := a + 1 + g.r.Int63n(86400*28*11)
-		// keep a < b as calendar values: b is rendered from a larger counter of the same mixed radix
+		// both bounds absolute: 2019..2023, or AFTER the wall clock (2030..2099), or straddling it.
+		// The statement then does not depend on the clock: TimeRange must be exactly these literals.
+		const y2019, y2030, year = 1546300800, 1893456000, 365 * 86400
+		var a, b int64
+		switch g.r.Intn(10) {
+		case 0, 1, 2:
+			a = y2030 + g.r.Int63n(69*year)
+			b = a + 1 + g.r.Int63n(300*86400)
+			g.future = true
+		case 3:
+			a = y2019 + g.r.Int63n(4*year)
+			b = y2030 + g.r.Int63n(69*year)
+			g.future = true
+		default:
+			a = y2019 + g.r.Int63n(4*year)
+			b = a + 1 + g.r.Int63n(300*86400)
+		}
 		g.absTime = true
+		g.wantStart, g.wantEnd = a*1000, b*1000
 		lo := []string{">", ">="}[g.r.Intn(2)]
 		hi := []string{"<", "<="}[g.r.Intn(2)]
 		if g.r.Intn(4) == 0 {
